@@ -173,6 +173,18 @@ def build(spec, rec=None):
     return gen.build(s, rec=rec)
 
 
+def _loaded_twice(loader):
+    """Load, edit what was loaded in place, load again: the second table is
+    what the file holds (a loader hands out a table of the caller's own)."""
+    first = loader()
+    if not first.is_empty():
+        first.transform(lambda v, i, md: v * 2 + 1, axis="observation",
+                        inplace=True)
+        first.transform(lambda v, i, md: v * 2 + 1, axis="sample",
+                        inplace=True)
+    return loader()
+
+
 def _parse_list(parts):
     """Parse a caller-owned list; it must be left as it was."""
     from biom.parse import parse_biom_table
@@ -208,6 +220,8 @@ def read(text, case, d):
             os.remove(p)
         with opener() as f:
             f.write(text)
+        if case.get("chunk", 0) % 2:
+            return _loaded_twice(lambda: load_table(p))
         return load_table(p)
     if how == "parse_stringio":
         return parse_biom_table(io.StringIO(text))
